@@ -52,9 +52,44 @@ struct OpScope {
 	default: handled = false; break;                                                                      \
 	}
 
+// zero-dimensional arrays: their own small operation set
+template<class Cfg>
+bool Exec<Cfg>::run_real_d0(Op const& op) {
+	if constexpr(HAS_D0) {
+		void*   raw = pool0_.raw(op.a);
+		A const al  = Cfg::make_alloc(op.ar);
+		E const val = ET::make(op.v);
+		switch(op.kind) {
+		case O_CTOR_DEFAULT: { OpScope s; new(raw) Arr0(); } return true;
+		case O_CTOR_EXT: { OpScope s; if(op.var & 1) new(raw) Arr0(multi::extensions_t<0>{}, al); else new(raw) Arr0(multi::extensions_t<0>{}); } return true;
+		case O_CTOR_EXT_ELEM: { OpScope s; if(op.var & 1) new(raw) Arr0(val, al); else new(raw) Arr0(val); } return true;
+		case O_CTOR_COPY: { Arr0 const& b = pool0_.at(op.b); OpScope s; new(raw) Arr0(b); } return true;
+		case O_CTOR_MOVE: { Arr0& b = pool0_.at(op.b); OpScope s; new(raw) Arr0(std::move(b)); } return true;
+		case O_DESTROY: { Arr0& a = pool0_.at(op.a); OpScope s; a.~Arr0(); } return true;
+		case O_ASSIGN_COPY: { Arr0& a = pool0_.at(op.a); Arr0 const& b = pool0_.at(op.b); OpScope s; a = b; } return true;
+		case O_ASSIGN_MOVE: { Arr0& a = pool0_.at(op.a); Arr0& b = pool0_.at(op.b); OpScope s; a = std::move(b); } return true;
+		case O_ASSIGN_SELF: { Arr0& a = pool0_.at(op.a); Arr0 const& r = a; OpScope s; a = r; } return true;
+		case O_ELEM_WRITE: { Arr0& a = pool0_.at(op.a); OpScope s; a = val; } return true;
+		case O_READ: {
+			Arr0 const& a  = pool0_.at(op.a);
+			bool        ok = true;
+			i64         got;
+			{ OpScope s; got = ET::read(static_cast<E const&>(a), ok); }
+			if(!ok) fail("LIFE-use-of-dead", "a zero-dimensional array converts to an element that is not alive");
+			else if(M.at(0, op.a).v.size() != 1 || got != M.at(0, op.a).v[0]) fail("V-value", "conversion of a zero-dimensional array to its element yields another value");
+		} return true;
+		default: return false;
+		}
+	} else {
+		(void)op;
+		return false;
+	}
+}
+
 template<class Cfg>
 bool Exec<Cfg>::run_real(Op const& op) {
 	bool handled = true;
+	if(op.da == 0 && op.kind != O_SAVE && op.kind != O_LOAD && op.kind != O_MSG_PACK && op.kind != O_MSG_XFER) return run_real_d0(op);
 	auto fill_values = [&](std::vector<E, hallocator<E>>& e, std::size_t n, i64 base) {
 		e.reserve(n);
 		for(std::size_t k = 0; k < n; ++k) e.push_back(ET::make(base + static_cast<i64>(k)));
